@@ -16,6 +16,7 @@
    The evolution of multi-product networks over time is not modelled (monitors on the implementation only). *)
 From SV Require Import Sim.Model Sim.Inv_base Sim.Policy_thms Sim.Main Sim.Example Sim.MultiOrder Sim.MultiOrder_proofs Sim.Obs Sim.Serial.
 From Coq Require Import Permutation.
+From SV Require Import Sim2.State2 Sim2.Model2 Sim2.Inv2a_tac Sim2.Inv2a_run Sim2.Wfb2 Sim2.Inv2b_tac Sim2.Inv2b_init Sim2.Main2b Sim2.Inv2c_order Sim2.Inv2c_refine Sim2.Main2c.
 
 Theorem C04_base_stock_rule : forall lv ip, let q := rule (BS lv) ip in 0 <= q /\ q == qmax 0 (lv - ip) /\ ip + q == qmax lv ip.
 Proof. exact bs_rule. Qed.
@@ -79,14 +80,14 @@ Proof. destruct serial_nonvacuous as (H1 & H2 & H3 & H4 & H5 & _ & _ & H8 & _). 
 (* ---- multi-product nodes: bill-of-materials clause ---- *)
 Theorem C04_multi_fg_order_follows_policy : forall prods rms, mwf prods rms -> forall pre pd post, prods = pre ++ pd :: post ->
   let '(oq0, oqfg0) := order_upto prods rms pre in
-  fg_get (snd (order_step false prods rms)) (p_id pd) == capq (p_cap pd) (rule (p_pol pd) (ip_of prods rms oq0 oqfg0 pd)).
+  fg_get (snd (order_step false prods rms)) (p_id pd) == MultiOrder.capq (p_cap pd) (rule (p_pol pd) (ip_of prods rms oq0 oqfg0 pd)).
 Proof. exact fg_order_follows_policy. Qed.
 Theorem C04_multi_raw_material_orders_add_up : forall prods rms, mwf prods rms -> forall paused rm, In rm rms ->
   let '(oq, oqfg) := order_step paused prods rms in
-  qsumf (fun p => oq_get oq (r_id rm) p) (map s_nb (r_sups rm)) == qsumf (fun pd => nbom pd (r_id rm) * fg_get oqfg (p_id pd)) prods.
+  qsumf (fun p => oq_get oq (r_id rm) p) (map s_nb (r_sups rm)) == qsumf (fun pd => MultiOrder.nbom pd (r_id rm) * fg_get oqfg (p_id pd)) prods.
 Proof. exact raw_material_orders_add_up. Qed.
-Theorem C04_multi_first_supplier_gets_all : forall q s rest, split_order q (s :: rest) = (s_nb s, q) :: split_order (q - q) rest /\
-  Forall (fun x => snd x == 0) (split_order (q - q) rest).
+Theorem C04_multi_first_supplier_gets_all : forall q s rest, MultiOrder.split_order q (s :: rest) = (s_nb s, q) :: MultiOrder.split_order (q - q) rest /\
+  Forall (fun x => snd x == 0) (MultiOrder.split_order (q - q) rest).
 Proof. exact first_supplier_gets_all. Qed.
 Theorem C04_multi_order_pausing : forall prods rms k r p, fg_get (snd (order_step true prods rms)) k = 0 /\ oq_get (fst (order_step true prods rms)) r p = 0.
 Proof. exact paused_orders_nothing. Qed.
@@ -116,6 +117,96 @@ Proof. split; [|vm_compute; split; reflexivity].
     + destruct H as [E|[]]; subst. eexists; split; [right; left; reflexivity|reflexivity].
 Qed.
 
+(* ---- multi-product nodes INSIDE the dynamic Stage-2 model (Sim2/Model2.v; proofs Sim2/Inv2c_order.v, Inv2c_refine.v, Main2c.v): in every record of every run the
+   raw-material orders add up per raw material to NBOM x finished-goods orders, the first supplier gets everything, every product orders
+   min(capacity, rule(position it observes when its turn comes)), and the model's ordering action IS the stand-alone [order_step] above applied to the
+   rows read off the state (so the C04_multi_* theorems above apply to every node of every state of every run) ---- *)
+Theorem C04_multi_run_orders_add_up :
+  forall (NW : net2) (inputs : inputs2),
+         Main2b.goodB2b NW = true ->
+         supC2b NW = true ->
+         forall (e : st2) (n r : N),
+         In e (run2 NW inputs) ->
+         In n (nodes2 NW) ->
+         In r (n_rms (cfg2 NW n)) ->
+         qsumf (fun p : nb => gq2 e (fOQ, n, p, r)) (m_sups (RC NW n r)) ==
+         qsumf (fun k : N => nbom (PC NW n k) r * gq2 e (fOQFG, n, Ext, k))
+           (n_prods (cfg2 NW n)).
+Proof. exact C04m_run_orders_add_up. Qed.
+Theorem C04_multi_run_first_supplier :
+  forall (NW : net2) (inputs : inputs2),
+         Main2b.goodB2b NW = true ->
+         forall (e : st2) (n : N) (p : nb) (r : N),
+         In e (run2 NW inputs) ->
+         Inv2b_tac.sup_edge NW n p r ->
+         gq2 e (fOQ, n, p, r) ==
+         (if Inv2c_order.first_supC (m_sups (RC NW n r)) p
+          then
+           qsumf (fun k : N => nbom (PC NW n k) r * gq2 e (fOQFG, n, Ext, k))
+             (n_prods (cfg2 NW n))
+          else 0).
+Proof. exact C04m_run_first_supplier. Qed.
+Theorem C04_multi_run_order_follows_policy :
+  forall (NW : net2) (inputs : inputs2),
+         Main2b.goodB2b NW = true ->
+         Main2b.onceB2b NW = true ->
+         forall (t : nat) (n : N) (pre : list N) (k : N) (post : list N),
+         (t < length inputs)%nat ->
+         In n (nodes2 NW) ->
+         n_prods (cfg2 NW n) = pre ++ k :: post ->
+         let e := nth t (run2 NW inputs) empty_st2 in
+         let i := nth t inputs Inv2b_period.dflt_input2 in
+         exists s0 : st2,
+           gq2 e (fOQFG, n, Ext, k) ==
+           (if disk2 NW (i_dis i) n dOP
+            then 0
+            else
+             capq (k_cap (PC NW n k))
+               (rule (k_pol (PC NW n k))
+                  (obs_ip2 NW
+                     (fold_left
+                        (fun (s : st2) (k' : N) =>
+                         place_prod2 NW (i_err i) s n k') pre s0) n k +
+                   i_err i n k))).
+Proof. exact C04m_run_order_follows_policy. Qed.
+Theorem C04_multi_model_refines_order_step :
+  forall (NW : net2) (dis : N -> bool) (err : N -> N -> Q) 
+           (s : st2) (n : N),
+         Main2b.goodB2b NW = true ->
+         Main2b.onceB2b NW = true ->
+         In n (nodes2 NW) ->
+         (forall k : N, In k (n_prods (cfg2 NW n)) -> err n k == 0) ->
+         let
+         '(oq, oqfg) :=
+          Inv2c_refine.MO.order_step (disk2 NW dis n dOP)
+            (Inv2c_refine.prod_rowsC NW s n) (Inv2c_refine.rm_rowsC NW s n) in
+          let e := place_orders2 NW dis err s n in
+          (forall k : N,
+           gq2 e (fOQFG, n, Ext, k) ==
+           gq2 s (fOQFG, n, Ext, k) + Inv2c_refine.MO.fg_get oqfg k) /\
+          (forall k : N,
+           gq2 e (fPFG, n, Ext, k) ==
+           gq2 s (fPFG, n, Ext, k) + Inv2c_refine.MO.fg_get oqfg k) /\
+          (forall (r : N) (p : nb),
+           In r (n_rms (cfg2 NW n)) ->
+           gq2 e (fOQ, n, p, r) ==
+           gq2 s (fOQ, n, p, r) + Inv2c_refine.MO.oq_get oq r p) /\
+          (forall (r : N) (p : nb),
+           In r (n_rms (cfg2 NW n)) ->
+           gq2 e (fOO, n, p, r) ==
+           gq2 s (fOO, n, p, r) + Inv2c_refine.MO.oq_get oq r p).
+Proof. exact C04m_refines_order_step. Qed.
+Theorem C04_multi_model_rows_wellformed :
+  forall (NW : net2) (err : N -> N -> Q) (s : st2) (n : N),
+         Main2b.goodB2b NW = true ->
+         Main2b.onceB2b NW = true ->
+         supC2b NW = true ->
+         In n (nodes2 NW) ->
+         (forall k : N, In k (n_prods (cfg2 NW n)) -> err n k == 0) ->
+         Inv2c_refine.MP.mwf (Inv2c_refine.prod_rowsC NW s n)
+           (Inv2c_refine.rm_rowsC NW s n).
+Proof. exact C04m_rows_wellformed. Qed.
+
 Example C04_nonvacuous : rule (SS 4 10) 3 == 7 /\ rule (SS 4 10) 5 == 0 /\ capped (cfg ex_net 1%N) 20 == 9 /\ pol_ok (cfg ex_net 2%N).
 Proof. vm_compute. repeat split; try reflexivity; discriminate. Qed.
 
@@ -139,3 +230,8 @@ Print Assumptions C04_multi_raw_material_orders_add_up.
 Print Assumptions C04_multi_first_supplier_gets_all.
 Print Assumptions C04_multi_order_pausing.
 Print Assumptions C04_multi_single_product_position.
+Print Assumptions C04_multi_run_orders_add_up.
+Print Assumptions C04_multi_run_first_supplier.
+Print Assumptions C04_multi_run_order_follows_policy.
+Print Assumptions C04_multi_model_refines_order_step.
+Print Assumptions C04_multi_model_rows_wellformed.
